@@ -153,6 +153,12 @@ def units(tier):
             for producer in ("ordered", "unordered"):
                 yield {"leg": "invalid", "stream": s, "dest": dest, "producer": producer}
                 yield {"leg": "iterfail", "stream": s, "dest": dest, "producer": producer}
+    # square storage: out-of-range ids and duplicates must be rejected there too (no upper-triangle check to fall back on)
+    for s in range(ns if th else 2):
+        for producer in ("ordered", "unordered"):
+            yield {"leg": "invalid", "stream": s, "dest": "new-group", "producer": producer, "symm": False}
+    if th:
+        yield {"leg": "bigdup"}
     for s in range(ns if th else 2):
         for dest in DESTS:
             for producer in ("ordered", "unordered", "merge", "coarsen"):
@@ -174,11 +180,14 @@ def _create(uri, chunks, producer, mode, symm=True, **kw):
 def _invalid(R, unit, only):
     stream = STREAMS[unit["stream"]]
     dest, producer = unit["dest"], unit["producer"]
+    symm = unit.get("symm", True)
     wd = scratch.sub(f"c13_{os.getpid()}")
     R.add("states")
     R.add("traces")
     kk = 0
     for kind in ("bin-too-large", "negative-bin", "lower-triangle", "duplicate", "duplicate-other-value"):
+        if kind == "lower-triangle" and not symm:
+            continue        # a lower-triangle pixel is valid in square storage
         for ci, chunk in enumerate(stream):
             for pos in range(len(chunk) + 1):
                 for side in ((0, 1) if kind in ("bin-too-large", "negative-bin") else (0,)):
@@ -204,10 +213,12 @@ def _invalid(R, unit, only):
                     R.add("transitions")
                     R.cls("invalid:" + kind)
                     R.cls("dest:" + dest)
+                    if not symm:
+                        R.cls("invalid:square-mode")
                     f, uri, mode, before = prepare(dest, wd)
                     raised = False
                     try:
-                        _create(uri, chunks, producer, mode, temp_dir=wd if producer == "unordered" else None)
+                        _create(uri, chunks, producer, mode, symm=symm, temp_dir=wd if producer == "unordered" else None)
                     except Exception:
                         raised = True
                     after(R, inner, dest, f, uri, before, None, raised, must_raise=True)
@@ -413,6 +424,39 @@ def _mapfail(R, dest, only):
     scratch.rm(wd)
 
 
+def _bigdup(R, only):
+    """one in-memory table of 1,000,003 rows in which a pixel occurs twice, the two sorted copies sitting on either side of row
+    1,000,000 (and, as a control, far from it): must be rejected wherever the copies are"""
+    import cooler
+    n = 1500
+    i, j = np.triu_indices(n)
+    i, j = i[:1000001], j[:1000001]
+    bins = build.bins_df([("chr1", q * 10, (q + 1) * 10) for q in range(n)])
+    R.add("states")
+    R.add("traces")
+    wd = scratch.sub(f"c13big_{os.getpid()}")
+    for at in (999999, 1000000, 500, 999998):
+        inner = {"duplicate_of_sorted_row": at}
+        if only is not None and only != inner:
+            continue
+        R.ev(1, 1)
+        R.add("transitions")
+        R.cls("invalid:duplicate-across-1e6-rows")
+        b1 = np.insert(i, at, i[at])
+        b2 = np.insert(j, at, j[at])
+        cnt = np.ones(len(b1), dtype=np.int32)
+        cnt[at] = 3
+        df = pd.DataFrame({"bin1_id": b1, "bin2_id": b2, "count": cnt})
+        f, uri, mode, before = prepare("new-group", wd)
+        raised = False
+        try:
+            cooler.create_cooler(uri, bins, df, mode=mode, h5opts={"compression": None, "shuffle": False})
+        except Exception:
+            raised = True
+        after(R, inner, "new-group", f, uri, before, None, raised, must_raise=True)
+    scratch.rm(wd)
+
+
 def seams():
     H5Hook.install()
 
@@ -429,5 +473,7 @@ def run(unit, R, tier, only=None):
         _load(R, unit["dest"], only)
     elif leg == "mapfail":
         _mapfail(R, unit["dest"], only)
+    elif leg == "bigdup":
+        _bigdup(R, only)
     else:
         raise ValueError(leg)
